@@ -496,6 +496,8 @@ class _TrajILoc:
     def __getitem__(self, k):
         t = self.t
         if isinstance(k, slice):
+            if k.step is None and k.stop == 0 and (k.start is None or k.start == 0):
+                return Rows([], [])         # iloc[:0]: no rows
             if k.stop is not None or k.step is not None or isinstance(k.start, I) or k.start is None or k.start >= 0:
                 raise NotImplementedError('trajectory.iloc[%r]' % (k,))
             m = -k.start
